@@ -202,3 +202,94 @@ Definition keeps_frobenius_norm (m : cmode) : bool := Nat.eqb (renorm_lookup m) 
 Definition dmrg2_renormalises_explicitly : bool := true.
 Definition dmrg2_normalised_after_truncation (m : cmode) : bool :=
   dmrg2_renormalises_explicitly || keeps_frobenius_norm m.
+
+(* ---- 7. the schedules over the life of a DMRG object ------------------------------------- *)
+(* DMRG._set_bond_dim_seq / _set_cutoff_seq: bds = (x,) for a scalar else tuple(x);
+   self._bond_dims = itertools.chain(bds, itertools.repeat(bds[-1]))   (bds[-1] of () raises IndexError).
+   The iterator as a state machine: entries not handed out yet + the value repeated afterwards. *)
+Record siter := mk_siter { rest : list nat; tailv : nat }.
+Definition mk_iter (bds : list nat) : option siter :=
+  match bds with [] => None | _ => Some (mk_siter bds (last bds 0)) end.
+Definition next_it (it : siter) : nat * siter :=
+  match rest it with
+  | [] => (tailv it, it)
+  | x :: r => (x, mk_siter r (tailv it))
+  end.
+
+(* __init__ : ham.rand_state(self._bond_dim0), _bond_dim0 = bds[0] *)
+Definition bond_dim0 (bds : list nat) : option nat := match bds with [] => None | x :: _ => Some x end.
+
+(* solve(bond_dims=None, cutoffs=None, ...): an argument that is given REPLACES the iterator (restart at entry 0),
+   otherwise the iterator left by __init__ / the previous call goes on; every sweep performed draws exactly one
+   entry of each iterator (direction, max_bond, cutoff = next(...), next(...), next(...)).
+   One call = (bond_dims argument, cutoffs argument, number of sweeps performed).  Cutoffs are coded by naturals
+   (index into a table of the floats used), the machine never looks inside them. *)
+Definition override (it : siter) (o : option (list nat)) : option siter :=
+  match o with None => Some it | Some b => mk_iter b end.
+Definition call := (option (list nat) * option (list nat) * nat)%type.
+
+Fixpoint draws (n : nat) (b c : siter) : list (nat * nat) * (siter * siter) :=
+  match n with
+  | O => ([], (b, c))
+  | S n' =>
+      let (x, b') := next_it b in
+      let (y, c') := next_it c in
+      let (l, st) := draws n' b' c' in ((x, y) :: l, st)
+  end.
+
+(* per call, per sweep: (max_bond, cutoff code) handed to sweep() *)
+Fixpoint history (b c : siter) (h : list call) : option (list (list (nat * nat))) :=
+  match h with
+  | [] => Some []
+  | (ob, oc, n) :: h' =>
+      match override b ob, override c oc with
+      | Some b1, Some c1 =>
+          let (l, st) := draws n b1 c1 in
+          option_map (cons l) (history (fst st) (snd st) h')
+      | _, _ => None
+      end
+  end.
+Definition dmrg_history (bds cuts : list nat) (h : list call) : option (list (list (nat * nat))) :=
+  match mk_iter bds, mk_iter cuts with
+  | Some b, Some c => history b c h
+  | _, _ => None
+  end.
+
+(* the closed form the documentation promises: "successive sweeps iterate through, then repeat the final value" *)
+Definition sseq := (list nat * nat)%type.            (* current sequence, entries consumed *)
+Definition enter (s : sseq) (o : option (list nat)) : sseq := match o with Some b => (b, 0) | None => s end.
+Definition caps_at (sb sc : sseq) (n : nat) : list (nat * nat) :=
+  map (fun i => (sched (fst sb) (snd sb + i), sched (fst sc) (snd sc + i))) (seq 0 n).
+Fixpoint history_spec (sb sc : sseq) (h : list call) : list (list (nat * nat)) :=
+  match h with
+  | [] => []
+  | (ob, oc, n) :: h' =>
+      let sb1 := enter sb ob in
+      let sc1 := enter sc oc in
+      caps_at sb1 sc1 n :: history_spec (fst sb1, snd sb1 + n) (fst sc1, snd sc1 + n) h'
+  end.
+Definition bstate_after (sb : sseq) (h : list call) : sseq :=
+  fold_left (fun s (c : call) => let s1 := enter s (fst (fst c)) in (fst s1, snd s1 + snd c)) h sb.
+Definition cstate_after (sc : sseq) (h : list call) : sseq :=
+  fold_left (fun s (c : call) => let s1 := enter s (snd (fst c)) in (fst s1, snd s1 + snd c)) h sc.
+
+(* solve(): the sweep loop.  `es` = self.energies, newest first; `script` = what the coming sweeps will return.
+   for _ in range(max_sweeps): ... energies.append(sweep(...)); if _check_convergence(tol): break
+   _check_convergence: len(energies) >= 2 and abs(energies[-2] - energies[-1]) < tol *)
+Definition converged (tol : Z) (es : list Z) : bool :=
+  match es with
+  | e1 :: e2 :: _ => Z.ltb (Z.abs (e2 - e1)) tol
+  | _ => false
+  end.
+Fixpoint sweeps_done (max_sweeps : nat) (tol : Z) (es script : list Z) : nat :=
+  match max_sweeps, script with
+  | S m, e :: script' => if converged tol (e :: es) then 1 else S (sweeps_done m tol (e :: es) script')
+  | _, _ => 0
+  end.
+
+(* 2-site sweeps with the caps handed over explicitly (whatever schedule / history produced them) *)
+Fixpoint sweeps2 (d : nat) (l : list (nat * (bool * bool * list nat))) (bonds : list nat) : list nat :=
+  match l with
+  | [] => bonds
+  | (chi, (dr, cn, rk)) :: l' => sweeps2 d l' (sweep2 d chi dr cn rk bonds)
+  end.
